@@ -398,7 +398,8 @@ func intToValue(i int64) Value {
 	if i >= -maxInt && i <= maxInt {
 		return valueInt(i)
 	}
-	return valueFloat(i)
+	// 2^53+1 rounds to 2^53, which is an integer in the canonical range
+	return floatToValue(float64(i))
 }
 
 func floatToInt(f float64) (result int64, ok bool) {
